@@ -101,7 +101,7 @@ Improper(c) == CASE c = "Tetrahedral" -> ImTet [] c = "SquarePlanar" -> ImSP
 Chiral(c) == Proper(c) \cap Improper(c) = {}
 
 (* t o pi : the arrangement that has at position i what t has at pi[i] *)
-Compose(t, pi) == [i \in 1..Len(t) |-> t[pi[i]]]
+ArrPerm(t, pi) == [i \in 1..Len(t) |-> t[pi[i]]]
 
 IdPerm(n) == [i \in 1..n |-> i]
 PermMul(p, q) == [i \in DOMAIN p |-> p[q[i]]]
@@ -117,9 +117,9 @@ SeqRange(s) == { s[i] : i \in DOMAIN s }
 (***************************************************************************)
 SameArr(c, t1, p1, t2, p2) ==
    \/ /\ p1 = p2
-      /\ \E pi \in Proper(c) : t2 = Compose(t1, pi)
+      /\ \E pi \in Proper(c) : t2 = ArrPerm(t1, pi)
    \/ /\ p1 = -p2
-      /\ \E pi \in Improper(c) : t2 = Compose(t1, pi)
+      /\ \E pi \in Improper(c) : t2 = ArrPerm(t1, pi)
 
 IsPermOf(t1, t2) ==
    /\ Len(t1) = Len(t2)
@@ -166,7 +166,7 @@ MinOf(S) == CHOOSE x \in S : \A y \in S : x <= y
 ClassKey(c, t, p) ==
    IF p = -1
      THEN LET s == CHOOSE pi \in Improper(c) : TRUE
-          IN  MinOf({ Enc(Compose(Compose(t, s), pi)) : pi \in Proper(c) })
-     ELSE MinOf({ Enc(Compose(t, pi)) : pi \in Proper(c) })
+          IN  MinOf({ Enc(ArrPerm(ArrPerm(t, s), pi)) : pi \in Proper(c) })
+     ELSE MinOf({ Enc(ArrPerm(t, pi)) : pi \in Proper(c) })
 
 =============================================================================
